@@ -28,6 +28,7 @@ def overlay_program(units, replacements, tag="mut"):
                 f.write(text)
             if rel.startswith("include/"):
                 header_touched = True
+                extra_inc.append(os.path.join(facts.REPO, os.path.dirname(rel)))   # sibling headers included by relative name
             elif rel.startswith("products/libllbuild/include/"):
                 extra_inc.append(os.path.join(scratch, "products/libllbuild/include"))
             else:
